@@ -528,7 +528,9 @@ impl<'de, R: Read<'de>> Parser<R> {
             b'-' => {
                 self.eat_char();
                 let next = self.peek_or_null()?;
-                if next == 0 || is_delimiter(next) || is_sign_subsequent(next) {
+                // A sign followed by a dot starts a peculiar identifier such as
+                // `-.a` (R7RS 7.1.1); numbers need a digit before the dot.
+                if next == 0 || is_delimiter(next) || is_sign_subsequent(next) || next == b'.' {
                     Token::Symbol(self.parse_symbol_suffix("-")?.into())
                 } else {
                     Token::Number(self.parse_num_token(10, false)?)
@@ -537,7 +539,9 @@ impl<'de, R: Read<'de>> Parser<R> {
             b'+' => {
                 self.eat_char();
                 let next = self.peek_or_null()?;
-                if next == 0 || is_delimiter(next) || is_sign_subsequent(next) {
+                // A sign followed by a dot starts a peculiar identifier such as
+                // `+.a` (R7RS 7.1.1); numbers need a digit before the dot.
+                if next == 0 || is_delimiter(next) || is_sign_subsequent(next) || next == b'.' {
                     Token::Symbol(self.parse_symbol_suffix("+")?.into())
                 } else {
                     Token::Number(self.parse_num_token(10, true)?)
